@@ -290,9 +290,16 @@ func compareSuffixArrays(a, b []suffix) int {
 		}
 	}
 
-	// If all compared suffixes are equal, the longer array is "smaller"
-	// This means "alpha_pre" < "alpha" (more suffixes = less stable)
-	return compareInt(len(b), len(a))
+	// If all compared suffixes are equal, the additional suffix decides: an extra
+	// pre-release suffix makes the version older ("alpha_pre" < "alpha"), an extra
+	// post-release suffix makes it newer ("p1_p2" > "p1"), as in apk-tools
+	if len(a) > minLen {
+		return compareSuffixes(a[minLen], suffix{name: "", number: 0})
+	}
+	if len(b) > minLen {
+		return compareSuffixes(suffix{name: "", number: 0}, b[minLen])
+	}
+	return 0
 }
 
 // compareSuffixes compares two individual suffixes
